@@ -252,6 +252,13 @@ pub mod balance {
         pub block_stacks: usize,
         /// Number of templates loaded through extends.
         pub loaded_templates: usize,
+        /// Per frame (bottom first): the closure attached to the frame
+        /// (`Frame::closure`: stores are mirrored into it) and the closure the
+        /// frame reads from (`Frame::closure_context`).
+        pub frame_closures: Vec<(Option<usize>, Option<usize>)>,
+        /// Per frame (bottom first): for loop frames the recursion target of
+        /// the loop and the pending recursion return (`current_recursion_jump`).
+        pub frame_loops: Vec<Option<(Option<(usize, u32)>, Option<(u32, bool)>)>>,
     }
 
     /// A nested evaluation that did not restore the execution state.
